@@ -47,6 +47,12 @@ template <class TStr> void ToStrings() {
   One<TStr>(std::chrono::system_clock::time_point{});
   One<TStr>(std::chrono::time_point<std::chrono::system_clock, std::chrono::milliseconds>{});
   One<TStr>(std::chrono::time_point<std::chrono::system_clock, std::chrono::seconds>{});
+  One<TStr>(std::chrono::time_point<std::chrono::system_clock, std::chrono::microseconds>{});
+  One<TStr>(std::chrono::time_point<std::chrono::system_clock, std::chrono::minutes>{});
+  One<TStr>(std::chrono::time_point<std::chrono::system_clock, std::chrono::hours>{});
+  One<TStr>(std::chrono::time_point<std::chrono::system_clock, std::chrono::duration<int64_t, std::ratio<86400>>>{});
+  One<TStr>(std::chrono::time_point<std::chrono::system_clock, std::chrono::duration<int32_t, std::ratio<86400>>>{});
+  One<TStr>(std::chrono::time_point<std::chrono::system_clock, std::chrono::duration<int32_t>>{});
   One<TStr>(std::chrono::seconds{}); One<TStr>(std::chrono::nanoseconds{}); One<TStr>(std::chrono::hours{}); One<TStr>(std::chrono::milliseconds{});
   One<TStr>(std::chrono::duration<int64_t, std::ratio<86400>>{});
   One<TStr>(CRawTime(0));
